@@ -363,8 +363,8 @@ C19_TEXT = """[Song]
 [SyncTrack]
 {
   0 = TS 4
-  0 = B 120000
-  768 = B 90500
+  0 = B 125000
+  768 = B 62500
   768 = A 1600000
 }
 [Events]
@@ -433,7 +433,7 @@ def observe(chart):
 
 
 _OBS0 = observe(_PRISTINE) if _PRISTINE is not None else None
-C19_MULT = {120.0: 2604, 90.5: 3453}   # ~microseconds per tick at resolution 192 (linear clock)
+C19_MULT = {125.0: 2500, 62.5: 5000}   # exact microseconds per tick at resolution 192 (linear clock)
 NOPS = 9
 
 
@@ -564,10 +564,14 @@ def immutability(op: int, ii: int, dj: int, form: int, a: int, b: int) -> bool:
     return done(ok)
 
 
+OP1 = H.part("VF_OP1", -1)
+
+
 def immutability2(op: int, ii: int, dj: int, form: int, a: int, b: int,
                   op2: int, ii2: int, dj2: int, form2: int) -> bool:
     """
     pre: _c19_pre([(op, ii, dj, form), (op2, ii2, dj2, form2)])
+    pre: OP1 < 0 or op == OP1
     pre: a >= 0 and b >= 0
     post: _
     """
@@ -622,3 +626,146 @@ def rejects_assignment(k: int, v: int) -> bool:
     except Exception:  # noqa: BLE001
         pass
     return done(False)
+
+
+# ---------------------------------------------------------------------------------------------
+# C06 / C13 with the real section parsers on concrete text
+# ---------------------------------------------------------------------------------------------
+_SONG = ["[Song]", "{", '  Name = "x"', "  Resolution = 192", "}"]
+_SYNC = ["[SyncTrack]", "{", "  0 = TS 4", "  0 = B 120000", "  384 = B 60000", "}"]
+_EVTS = ["[Events]", "{", '  0 = E "section a"', '  96 = E "lyric b"', "}"]
+_TRACK_A = ["  0 = N 0 0", "  96 = N 1 48", "  96 = N 2 0", "  100 = S 2 50", "  400 = N 7 0"]
+_TRACK_B = ["  10 = N 3 0", "  20 = E solo"]
+_TRACK_BAD = ["  500 = N 3 0", "  20 = N 1 0", "  20 = N 5 0", "  5 = E solo"]   # unsorted: rejected when parsed
+_REAL_NAMES = ["ExpertSingle", "EasyDoubleBass", "MediumGHLCoop", "HardKeyboard", "ExpertSinglee"]
+_REAL_PERMS = [(0, 1, 2, 3), (3, 2, 1, 0), (1, 3, 0, 2), (2, 0, 3, 1)]
+
+
+def _text(sections, perm, crlf):
+    lines = []
+    for p in perm:
+        if p < len(sections):
+            lines += sections[p]
+    nl = "\r\n" if crlf else "\n"
+    return nl.join(lines) + nl
+
+
+def route_real(ni: int, pi: int, crlf: bool) -> bool:
+    """
+    pre: 0 <= ni < len(_REAL_NAMES) and 0 <= pi < len(_REAL_PERMS)
+    post: _
+    """
+    nm = _REAL_NAMES[ni]
+    secs = [_SONG, _SYNC, _EVTS, ["[" + nm + "]", "{"] + _TRACK_A + ["}"]]
+    log = H.CountingLogger()
+    with H.patched((C, "logger", log)):
+        ref = Chart.from_file(io.StringIO(_text(secs, (0, 1, 2, 3), False)))
+        got = Chart.from_file(io.StringIO(_text(secs, _REAL_PERMS[pi], crlf)))
+    ok = got == ref and ref == got and observe(got) == observe(ref)
+    if nm in PAIR_OF:
+        ins, dif = PAIR_OF[nm]
+        ok = ok and list(got.instrument_tracks.keys()) == [ins] and list(got.instrument_tracks[ins].keys()) == [dif]
+        t = got.instrument_tracks[ins][dif]
+        ok = ok and t.instrument is ins and t.difficulty is dif and len(t.note_events) == 3 and t.header_tag == nm
+        ok = ok and len(log.warnings) == 0
+    else:
+        ok = ok and len(got.instrument_tracks) == 0 and len(log.warnings) == 2
+    ok = ok and got.metadata.name == "x" and got.metadata.resolution == 192
+    ok = ok and len(got.sync_track.bpm_events) == 2 and len(got.global_events_track.section_events) == 1
+    return done(ok)
+
+
+def select_real(mode: int, selA: bool, selB: bool, sel_absent: bool, bad: bool, pi: int) -> bool:
+    """
+    pre: 0 <= mode <= 2 and 0 <= pi < len(_REAL_PERMS)
+    pre: mode == 2 or not (selA or selB or sel_absent)
+    post: _
+    """
+    A, B_ = (Instrument.GUITAR, Difficulty.EXPERT), (Instrument.DRUMS, Difficulty.HARD)
+    good_secs = [_SONG, _SYNC, _EVTS, ["[ExpertSingle]", "{"] + _TRACK_A + ["}", "[HardDrums]", "{"] + _TRACK_B + ["}"]]
+    secs = [_SONG, _SYNC, _EVTS, ["[ExpertSingle]", "{"] + _TRACK_A + ["}", "[HardDrums]", "{"] + (_TRACK_BAD if bad else _TRACK_B) + ["}"]]
+    want = None
+    if mode == 1:
+        want = []
+    elif mode == 2:
+        want = []
+        if selA:
+            want.append(A)
+        if sel_absent:
+            want.append((Instrument.KEYS, Difficulty.EASY))
+        if selB:
+            want.append(B_)
+    log = H.CountingLogger()
+    with H.patched((C, "logger", log), (__import__("chartparse.track", fromlist=["x"]), "logger", H.CountingLogger())):
+        ref = Chart.from_file(io.StringIO(_text(good_secs, (0, 1, 2, 3), False)))
+        b_parsed = mode == 0 or (mode == 2 and selB)
+        try:
+            got = Chart.from_file(io.StringIO(_text(secs, _REAL_PERMS[pi], False)), want_tracks=want)
+        except ValueError:
+            return done(bad and b_parsed)
+    if bad and b_parsed:
+        return done(False)
+    exp = []
+    if mode == 0 or (mode == 2 and selA):
+        exp.append(A)
+    if b_parsed:
+        exp.append(B_)
+    keys = [(i, d) for i in got.instrument_tracks for d in got.instrument_tracks[i]]
+    ok = sorted(k[0].name for k in keys) == sorted(k[0].name for k in exp) and len(keys) == len(exp)
+    ok = ok and len([i for i in got.instrument_tracks if len(got.instrument_tracks[i]) == 0]) == 0
+    for (i, d) in exp:
+        ok = ok and i in got.instrument_tracks and d in got.instrument_tracks[i]
+        if not ok:
+            return done(False)
+        ok = ok and got.instrument_tracks[i][d] == ref.instrument_tracks[i][d]
+    ok = ok and got.metadata == ref.metadata and got.sync_track == ref.sync_track
+    ok = ok and got.global_events_track == ref.global_events_track
+    return done(ok)
+
+
+# ---------------------------------------------------------------------------------------------
+# C16 on a really parsed chart (tick bounds through the real tempo lookup, linear clock)
+# ---------------------------------------------------------------------------------------------
+
+
+def _us_of_tick(t):
+    if t < 768:
+        return 2500 * t
+    return 2500 * 768 + 5000 * (t - 768)
+
+
+def nps_real(form: int, a: int, b: int) -> bool:
+    """
+    pre: 0 <= form <= 5 and a >= 0 and b >= 0
+    post: _
+    """
+    if _C19_ERR is not None:
+        raise _C19_ERR
+    chart = _PRISTINE
+    note_us = [0, 240000, 2080000]          # notes at ticks 0, 96, 800
+    last_end = 2080000                       # max(end times): tick 396 -> 990000, tick 800 -> 2080000
+    if form == 0:
+        args, s_us, e_us = (), 0, last_end
+    elif form == 1:
+        args, s_us, e_us = (a,), _us_of_tick(a), last_end
+    elif form == 2:
+        args, s_us, e_us = (a, b), _us_of_tick(a), _us_of_tick(b)
+    elif form == 3:
+        args, s_us, e_us = (AbsTime(a),), a, last_end
+    elif form == 4:
+        args, s_us, e_us = (AbsTime(a), AbsTime(b)), a, b
+    else:
+        args, s_us, e_us = (None, b), 0, _us_of_tick(b)
+    clock = H.Clock("linear", mult=C19_MULT)
+    with H.abstract_time(clock):
+        try:
+            got = chart.notes_per_second(Instrument.GUITAR, Difficulty.EXPERT, *args)
+        except ValueError:
+            return done(e_us - s_us <= 0)
+    if e_us - s_us <= 0:
+        return done(False)
+    count = 0
+    for x in note_us:
+        if s_us <= x and x <= e_us:
+            count += 1
+    return done(isinstance(got, H.Rate) and got.num == count and got.us == e_us - s_us)
